@@ -299,7 +299,7 @@ def run_chunk(ctx, n_programs, mode='plain', p_cmd=0.3):
             # a join restored from the backlog gets a second row: the join logic then reads "the latest row of a
             # task" = the row the database lists last; sequential ids make that the creation order (the model's)
             r = run_case(ctx, prog, table, policy, seed, ops=[dict(o) for o in ops],
-                         id_mode='seq' if has_pause else 'random')
+                         id_mode='seq' if has_cmd else 'random')
         except Exception as e:
             from mistral import exceptions as exc
             if isinstance(e, exc.MistralException):
